@@ -1,7 +1,7 @@
 (* Scan/ProofsCursor.v — the text of the merged cursor (server/scan_merge.go doMergeScan / decodeScanCursor):
    what a reply encodes is what the next request decodes, given of encoding/base64 and strconv only that
    decoding inverts encoding and that their output contains neither ':' nor ';'. *)
-From ZV Require Import Common.Bytes Common.BytesFacts Scan.Consts Scan.Model Scan.ProofsOrder.
+From ZV Require Import Common.Bytes Common.BytesFacts Scan.Consts Scan.Model Scan.ProofsOrder Scan.ProofsB64.
 From Coq Require Import Lia.
 Open Scope N_scope.
 
@@ -36,38 +36,57 @@ Section CursorProofs.
   Variable b64dec : bytes -> option bytes.
   Variable itoa : nat -> bytes.
   Variable atoi : bytes -> option nat.
+  (* the partition ids the decimal conversion is known to round-trip *)
+  Variable okp : nat -> Prop.
   (* what is used of base64 and of the decimal conversion *)
-  Hypothesis b64_inv : forall x, b64dec (b64 x) = Some x.
+  Hypothesis b64_inv : forall x, bytes_ok x = true -> b64dec (b64 x) = Some x.
   Hypothesis b64_alphabet : forall x, ~ In scan_node_sep (b64 x) /\ ~ In scan_cursor_sep (b64 x).
+  Hypothesis b64_bytes : forall x, bytes_ok (b64 x) = true.
   Hypothesis b64_nonempty : forall x, x <> [] -> b64 x <> [].
-  Hypothesis atoi_inv : forall p, atoi (itoa p) = Some p.
-  Hypothesis itoa_digits : forall p, ~ In scan_node_sep (itoa p) /\ ~ In scan_cursor_sep (itoa p).
+  Hypothesis atoi_inv : forall p, okp p -> atoi (itoa p) = Some p.
+  Hypothesis itoa_digits : forall p, okp p ->
+    ~ In scan_node_sep (itoa p) /\ ~ In scan_cursor_sep (itoa p) /\ bytes_ok (itoa p) = true.
 
-  Lemma piece_no_scan_cursor_sep p c : ~ In scan_cursor_sep (itoa p ++ scan_node_sep :: b64 c).
+  Definition mcursor_ok (mc : mcursor) : Prop := Forall (fun t => okp (fst t) /\ bytes_ok (snd t) = true) mc.
+
+  Lemma piece_no_cursor_sep p c : okp p -> ~ In scan_cursor_sep (itoa p ++ scan_node_sep :: b64 c).
   Proof.
-    intro H. apply in_app_or in H. destruct H as [H|[H|H]].
-    - now apply (proj2 (itoa_digits p)).
+    intros Hp H. apply in_app_or in H. destruct H as [H|[H|H]].
+    - now apply (proj1 (proj2 (itoa_digits p Hp))).
     - discriminate.
     - now apply (proj2 (b64_alphabet c)).
   Qed.
 
+  Lemma bytes_ok_app a b : bytes_ok (a ++ b) = bytes_ok a && bytes_ok b.
+  Proof. unfold bytes_ok. apply forallb_app. Qed.
+
+  Lemma segments_bytes mc : mcursor_ok mc -> bytes_ok (cursor_segments b64 itoa mc) = true.
+  Proof.
+    induction 1 as [|[p c] r [Hp Hc] _ IH]; [reflexivity|].
+    cbn [cursor_segments fst snd] in *. rewrite bytes_ok_app. cbn [bytes_ok forallb].
+    fold (bytes_ok (b64 c ++ scan_cursor_sep :: cursor_segments b64 itoa r)).
+    rewrite bytes_ok_app. cbn [bytes_ok forallb]. fold (bytes_ok (cursor_segments b64 itoa r)).
+    rewrite (proj2 (proj2 (itoa_digits p Hp))), b64_bytes, IH. reflexivity.
+  Qed.
+
   (* the pieces between the ';' are the per-partition segments *)
-  Lemma split_segments : forall mc, mc <> [] ->
+  Lemma split_segments : forall mc, mcursor_ok mc -> mc <> [] ->
     exists body, cursor_segments b64 itoa mc = body ++ [scan_cursor_sep] /\
                  (forall t, body <> t ++ [scan_cursor_sep]) /\
                  split_all scan_cursor_sep body = map (fun t => itoa (fst t) ++ scan_node_sep :: b64 (snd t)) mc.
   Proof.
-    induction mc as [|[p c] r IH]; intro Hne; [congruence|].
+    induction mc as [|[p c] r IH]; intros Hok Hne; [congruence|].
+    inversion Hok as [|t0 r0 [Hp _] Hokr]; subst. cbn [fst] in Hp.
     cbn [cursor_segments]. destruct r as [|t r'].
     - exists (itoa p ++ scan_node_sep :: b64 c). cbn [cursor_segments map fst snd].
       split; [now rewrite <- app_assoc|]. split.
-      + intros t Ht. apply (piece_no_scan_cursor_sep p c). rewrite Ht. apply in_or_app. right. now left.
-      + apply split_all_no_sep. apply piece_no_scan_cursor_sep.
-    - destruct IH as [body [Hb [Hlast Hs]]]; [discriminate|].
+      + intros t Ht. apply (piece_no_cursor_sep p c Hp). rewrite Ht. apply in_or_app. right. now left.
+      + apply split_all_no_sep. now apply piece_no_cursor_sep.
+    - destruct IH as [body [Hb [Hlast Hs]]]; [exact Hokr|discriminate|].
       exists ((itoa p ++ scan_node_sep :: b64 c) ++ scan_cursor_sep :: body). split.
       + rewrite Hb. rewrite <- !app_assoc. cbn [app]. reflexivity.
       + split.
-        * intros t0 Ht. 
+        * intros t0 Ht.
           assert (body <> []) as Hbn.
           { intros ->. destruct t as [p' c']. cbn [cursor_segments app] in Hb.
             destruct (itoa p') as [|d0 ds]; cbn [app] in Hb.
@@ -77,32 +96,33 @@ Section CursorProofs.
           assert (z = scan_cursor_sep) as ->.
           { rewrite app_comm_cons, app_assoc in Ht. apply app_inj_tail in Ht. tauto. }
           now apply (Hlast b').
-        * rewrite split_all_app by apply piece_no_scan_cursor_sep. cbn [map fst snd]. now rewrite Hs.
+        * rewrite split_all_app by (now apply piece_no_cursor_sep). cbn [map fst snd]. now rewrite Hs.
   Qed.
 
-  Lemma decode_segments_ok : forall mc,
+  Lemma decode_segments_ok : forall mc, mcursor_ok mc ->
     decode_segments b64dec atoi (map (fun t => itoa (fst t) ++ scan_node_sep :: b64 (snd t)) mc) = Ok mc.
   Proof.
-    induction mc as [|[p c] r IH]; [reflexivity|]. cbn [map decode_segments fst snd].
-    rewrite split_all_app by apply (proj1 (itoa_digits p)).
+    induction 1 as [|[p c] r [Hp Hc] _ IH]; [reflexivity|]. cbn [map decode_segments fst snd] in *.
+    rewrite split_all_app by apply (proj1 (itoa_digits p Hp)).
     rewrite split_all_no_sep by apply (proj1 (b64_alphabet c)).
-    now rewrite b64_inv, atoi_inv, IH.
+    now rewrite (b64_inv c Hc), (atoi_inv p Hp), IH.
   Qed.
 
   (* the cursor text a reply carries is decoded by the next request into the same partitions and cursors *)
   Theorem mcursor_roundtrip table mc :
-    table <> [] -> ~ In scan_node_sep table -> mc <> [] ->
+    table <> [] -> ~ In scan_node_sep table -> mc <> [] -> mcursor_ok mc ->
     decode_scan_cursor b64dec atoi (table ++ scan_node_sep :: encode_mcursor b64 itoa mc) = Ok (table, mc).
   Proof.
-    intros Ht Hsep Hmc. unfold decode_scan_cursor, encode_mcursor.
+    intros Ht Hsep Hmc Hok. unfold decode_scan_cursor, encode_mcursor.
     rewrite split_all_app by exact Hsep.
     rewrite split_all_no_sep by apply (proj1 (b64_alphabet _)).
     destruct table as [|t0 tb]; [congruence|].
-    destruct (split_segments mc Hmc) as [body [Hb [Hlast Hs]]].
+    destruct (split_segments mc Hok Hmc) as [body [Hb [Hlast Hs]]].
     assert (cursor_segments b64 itoa mc <> []) as Hne by (rewrite Hb; destruct body; discriminate).
     pose proof (b64_nonempty _ Hne) as Hne2.
     destruct (b64 (cursor_segments b64 itoa mc)) as [|e0 er] eqn:Eb; [congruence|].
-    rewrite <- Eb, b64_inv, Hb, (trim_right_snoc _ _ Hlast), Hs, decode_segments_ok. reflexivity.
+    rewrite <- Eb, (b64_inv _ (segments_bytes mc Hok)), Hb, (trim_right_snoc _ _ Hlast), Hs, (decode_segments_ok mc Hok).
+    reflexivity.
   Qed.
 
   (* the empty cursor (first request, and the end of the iteration) *)
@@ -114,3 +134,22 @@ Section CursorProofs.
     rewrite split_all_app by exact Hsep. cbn [split_all]. destruct table; [congruence|reflexivity].
   Qed.
 End CursorProofs.
+
+(* ---------- with the base64 and decimal functions of the model ---------- *)
+
+Definition real_mcursor_ok (mc : mcursor) : Prop :=
+  Forall (fun t => (fst t < pid_bound)%nat /\ bytes_ok (snd t) = true) mc.
+
+Theorem real_mcursor_roundtrip table mc :
+  table <> [] -> ~ In scan_node_sep table -> mc <> [] -> real_mcursor_ok mc ->
+  decode_scan_cursor b64dec atoi (table ++ scan_node_sep :: encode_mcursor b64enc itoa mc) = Ok (table, mc).
+Proof.
+  apply (mcursor_roundtrip b64enc b64dec itoa atoi (fun p => (p < pid_bound)%nat)
+           b64dec_enc b64enc_alphabet b64enc_ok b64enc_nonempty).
+  - intros p Hp. exact (proj1 (itoa_spec p Hp)).
+  - intros p Hp. pose proof (proj2 (itoa_spec p Hp)) as Hd. rewrite Forall_forall in Hd.
+    repeat split.
+    + intro Hin. specialize (Hd _ Hin). unfold scan_node_sep in Hd. lia.
+    + intro Hin. specialize (Hd _ Hin). unfold scan_cursor_sep in Hd. lia.
+    + apply forallb_forall. intros x Hin. specialize (Hd _ Hin). apply N.ltb_lt. lia.
+Qed.
